@@ -10,11 +10,15 @@ import (
 	"unsafe"
 
 	"github.com/couchbase/nitro"
+	"github.com/couchbase/nitro/skiplist"
+	vos "github.com/couchbase/nitro/zzverif/os"
+	vruntime "github.com/couchbase/nitro/zzverif/runtime"
 	"github.com/couchbase/nitro/zzverif/vrt"
 )
 
 type smrDriver struct {
 	name    string
+	delta   bool // delta interleaving + in-memory file system
 	writers int
 	// setup runs under the default schedule; threads run under exploration; finish under the default schedule
 	setup   func(e *nEnv, x *smrCtx)
@@ -25,6 +29,7 @@ type smrDriver struct {
 type smrCtx struct {
 	snaps []*nitro.Snapshot
 	res   []string
+	store *nitro.Snapshot // the snapshot handed to StoreToDisk (its own reference)
 }
 
 func (e *nEnv) putL(w int, bs string, level int) bool {
@@ -173,6 +178,34 @@ func smrDrivers(tier string) []smrDriver {
 				x.res[1] = fmt.Sprint(showAll(got), err)
 			},
 		}})
+	// S7: backup with delta interleaving (the visitor iterates on a released snapshot, only its barrier
+	// session protects the current item) with refresh rate 1, against deletes + snapshot churn + collection
+	for _, sc := range []int{1, 2} {
+		sc := sc
+		ds = append(ds, smrDriver{name: fmt.Sprintf("S7-delta-backup-shards%d-vs-churn", sc), writers: 1, delta: true,
+			setup: func(e *nEnv, x *smrCtx) {
+				vruntime.CPUs = sc // shard count = store concurrency: one shard holding every item, or two
+				e.putL(0, "a", 1)
+				e.putL(0, "b", 1)
+				e.putL(0, "c", 0)
+				e.putL(0, "d", 1)
+				s := snap(e, x)
+				s.Open() // the reference StoreToDisk consumes
+				x.store = s
+				nitro.VerifSetRefreshRate(e.db, 1)
+			},
+			threads: []func(e *nEnv, x *smrCtx){
+				func(e *nEnv, x *smrCtx) { x.res[0] = fmt.Sprint(e.db.StoreToDisk(backupDir, x.store, sc, nil)) },
+				func(e *nEnv, x *smrCtx) {
+					x.snaps[0].Close()
+					x.snaps[0] = nil
+					e.ws[0].Delete([]byte("b"))
+					e.ws[0].Delete([]byte("c"))
+					s2, _ := e.db.NewSnapshot()
+					s2.Close()
+				},
+			}})
+	}
 	// S6: Delete2 = lookup + DeleteNode against a same-epoch delete of the same key by another writer
 	ds = append(ds, smrDriver{name: "S6-delete2-vs-delete", writers: 2,
 		setup: func(e *nEnv, x *smrCtx) { e.putL(0, "k", 0) },
@@ -187,7 +220,10 @@ func runSmrDriver(jc *JobCtx, prop string, d smrDriver, model vrt.CostModel, bou
 	var outcome string
 	body := func() {
 		outcome = ""
-		e := newNEnv(nCfg{mm: true, cmp: "default", writers: d.writers})
+		e := newNEnv(nCfg{mm: true, cmp: "default", writers: d.writers, delta: d.delta})
+		if d.delta {
+			resetFS()
+		}
 		x := &smrCtx{res: make([]string, len(d.threads))}
 		vrt.NoBranch(true)
 		if d.setup != nil {
@@ -232,6 +268,7 @@ func runSmrDriver(jc *JobCtx, prop string, d smrDriver, model vrt.CostModel, bou
 				vrt.Fail("barrier-liveness", fmt.Sprintf("the database is idle with %d linked nodes but the allocator still holds %d blocks (expected %d): unlinked nodes are waiting for a future flush (%d sessions queued): %s", len(phys), live, want, queued, desc))
 			}
 		}
+		vos.FS = nil
 		e.closing = true
 		e.db.Close()
 		if prop == "C07" {
@@ -260,6 +297,16 @@ func smrJobs(prop string) func(tier string) []Job {
 			}
 			jobs = append(jobs, Job{Name: fmt.Sprintf("%s/conc/%s/preempt1", prop, d.name), Shards: shards, Run: func(jc *JobCtx) { runSmrDriver(jc, prop, d, vrt.CostPreempt, 1) }})
 		}
+		if prop == "C04" {
+			b := 2
+			if tier == "thorough" {
+				b = 3
+			}
+			for _, mode := range []string{"refresh1", "explicit", "plain"} {
+				mode := mode
+				jobs = append(jobs, Job{Name: fmt.Sprintf("C04/skiplist/S8-delete-vs-iterator/%s/preempt%d", mode, b), Shards: 2, Run: func(jc *JobCtx) { runSlSmr(jc, mode, vrt.CostPreempt, b) }})
+			}
+		}
 		return jobs
 	}
 }
@@ -268,4 +315,79 @@ func init() {
 	register(&propDef{ID: "C04", Jobs: smrJobs("C04"),
 		Rule:  "user-managed memory on the guard allocator (blocks outside the Go heap, one page-aligned slot per block, never reused, freed pages PROT_NONE, every hooked atomic access checked before it is performed, every free walks the structure at all levels); closed drivers: insert overtaken by a delete of the same node (height 1/2), two/three writers deleting the same key (same epoch / cross epoch), same-epoch delete against a lookup, same-epoch churn and snapshot closes (GC worker unlink -> flush -> free worker) against snapshot iterators with refresh rate 0/1 and against Visitor, Delete2 against Delete; all schedules of harness threads, GC workers and free workers within delay bound 2/3 and preemption bound 1; non-trivial = schedules deviating from the default with a context switch",
 		Notes: []string{"items obtained from an open iterator are dereferenced again after a harness scheduling point", "the free-while-linked walk stops when Nitro.Close starts (it frees linked nodes by design)", "Go atomics sequentially consistent; plain reads of freed memory fault (SetPanicOnFault) and are reported with the faulting nitro function"}})
+}
+
+// S8: the skiplist package used directly with user-managed memory: a mutator deletes the node the
+// iterator may be standing on and hands it to the barrier; the destructor frees node and item; the
+// iterator refreshes its session after every step / pauses and resumes.
+func runSlSmr(jc *JobCtx, mode string, model vrt.CostModel, bound int) {
+	var outcome string
+	body := func() {
+		outcome = ""
+		var e *slEnv
+		destructor := func(ref unsafe.Pointer) {
+			n := (*skiplist.Node)(ref)
+			e.ga.Free(n.Item())
+			e.s.FreeNode(n, &e.s.Stats)
+		}
+		e = newSlEnv(true, destructor)
+		ga := e.ga
+		vrt.FaultClassifier = func(addr uintptr) string {
+			if ga.InArena(addr) {
+				return "use-after-free"
+			}
+			return ""
+		}
+		s := e.s
+		vrt.NoBranch(true)
+		item := func(k int) unsafe.Pointer {
+			p := ga.Malloc(8)
+			*(*int)(p) = k
+			return p
+		}
+		buf0 := s.MakeBuf()
+		handles := map[int]*skiplist.Node{}
+		for _, in := range []slInit{{10, 0}, {20, 1}, {30, 0}} {
+			n, ok := s.Insert2(item(in.key), skiplist.CompareInt, nil, buf0, levelFn(in.level), &s.Stats)
+			if !ok {
+				panic("setup insert failed")
+			}
+			handles[in.key] = n
+		}
+		var got []int
+		t1 := vrt.GoNamed("M", func() {
+			buf := s.MakeBuf()
+			n := handles[20]
+			if s.DeleteNode(n, skiplist.CompareInt, buf, &s.Stats) {
+				s.GetAccesBarrier().FlushSession(unsafe.Pointer(n))
+			}
+		})
+		t2 := vrt.GoNamed("IT", func() {
+			buf := s.MakeBuf()
+			it := s.NewIterator(skiplist.CompareInt, buf)
+			if mode == "refresh1" {
+				it.SetRefreshInterval(1)
+			}
+			it.SeekFirst()
+			for n := 0; it.Valid(); n++ {
+				p := it.Get()
+				ga.CheckLive(p, "item returned by an open skiplist iterator")
+				got = append(got, *(*int)(p))
+				vrt.Fence()
+				if mode == "explicit" && n == 1 {
+					it.Refresh()
+				}
+				if len(got) > 20 {
+					break
+				}
+				it.Next()
+			}
+			it.Close()
+		})
+		vrt.NoBranch(false)
+		vrt.Join(t1, t2)
+		vrt.NoBranch(true)
+		outcome = fmt.Sprint(got)
+	}
+	jc.Sched(SchedOpts{Model: model, Bound: bound, Outcome: func(r *vrt.Result) string { return outcome }}, body, nil)
 }
